@@ -107,4 +107,34 @@ REGISTRY = {
             'nontrivial': lambda c, p: c['nofmt'] > 0,
             'rule': 'TLC: Segmenter (lossless bodies); code: payload sequences (bytes/bytearray/str, boundary lengths) over 1..3 NO-FORMAT objects; non-trivial = a no-format record decoded',
             'assumptions': COMMON_ASSUME},
+    'C03': {'models': [], 'nontrivial': lambda c, p: c['fdata'] > 0 and c['frames'] > 0,
+            'rule': 'code: frames over dtype x byte order x layout x width x rows x chunk x record length x cast; TLC slices every FDATA record by the decoded channel descriptors and compares each slot with the big-endian image of the input; non-trivial = FDATA records decoded for an expected frame',
+            'assumptions': COMMON_ASSUME},
+    'C04': {'models': [], 'nontrivial': lambda c, p: c['eflrs'] > 0,
+            'rule': 'code: all object classes x attribute subset patterns x multiplicities x named/unnamed sets x 1..3 objects per set; TLC parses every EFLR body with the component grammar; non-trivial = EFLRs decoded',
+            'assumptions': COMMON_ASSUME},
+    'C05': {'models': [], 'nontrivial': lambda c, p: c['objs'] > 0,
+            'rule': 'code: objects of all classes with values per attribute kind and assignment route; TLC compares every assigned attribute of Canon with the decoded object; non-trivial = Canon objects compared',
+            'assumptions': COMMON_ASSUME},
+    'C07': {'models': [], 'nontrivial': lambda c, p: c['objs'] > 0 and c['eflrs'] > 0,
+            'rule': 'code: object graphs with repeated names, several origins, explicit origin references, origin added late; TLC resolves every reference of the decoded file and compares with the object the history passed',
+            'assumptions': COMMON_ASSUME},
+    'C08': {'models': [], 'nontrivial': lambda c, p: c['frames'] > 0 and c['fdata'] > 0,
+            'rule': 'code: data scenarios + user dimension/element-limit combinations + shared/absent channels; TLC checks decoded descriptors against record lengths',
+            'assumptions': COMMON_ASSUME},
+    'C09': {'models': [], 'nontrivial': lambda c, p: c['eflrs'] > 0,
+            'rule': 'code: header variants, origin first/middle/last, classes in random creation order, 1..3 logical files; TLC checks the order clauses on the decoded record sequence',
+            'assumptions': COMMON_ASSUME},
+    'C11': {'models': [], 'nontrivial': lambda c, p: c['cmp'] > 0,
+            'rule': 'code: the same data through inline / dict / structured array / HDF5 / pre-sliced arrays with windows and chunk sizes, five files per scenario; TLC compares files whose Canon and expected rows are equal; non-trivial = at least one pair of files compared',
+            'assumptions': COMMON_ASSUME},
+    'C13': {'models': [], 'nontrivial': lambda c, p: c['idx'] > 0,
+            'rule': 'code: index sequences x dtypes x indexed/not x user-supplied values x windows, and write-write histories; TLC recomputes min/max/differences in integers from the expected rows; non-trivial = an index channel with integer values was judged',
+            'assumptions': COMMON_ASSUME},
+    'C18': {'models': [], 'nontrivial': lambda c, p: c['objs'] > 0 and c['files'] > 0,
+            'rule': 'code: 1..3 logical files x set-name assignment (distinct/default/partial) x interleavings x inline or write-time data; TLC compares per-logical-file inventories',
+            'assumptions': COMMON_ASSUME},
+    'C19': {'models': [], 'nontrivial': lambda c, p: c['files'] + c['raised'] > 0,
+            'rule': 'code: all source kinds, layouts incl. views into larger buffers and read-only arrays, successful and failing writes; TLC compares the caller buffers (whole base buffer) before and after',
+            'assumptions': COMMON_ASSUME},
 }
